@@ -14,6 +14,8 @@ mod restrict;
 use alloc::vec::Vec;
 
 pub use self::decoder::{BinDecoder, DecodeError};
+#[cfg(hickory_dns_verif)]
+pub use self::decoder::verif as decoder_verif;
 pub use self::encoder::{
     BinEncoder, EncodedSize, ModalEncoder, NameEncoding, Place, RDataEncoding,
 };
